@@ -1181,7 +1181,7 @@ def classify(judgement, judge, spec, items, st, dec, model, depth=0):
                 d = sorted(differing_roles(['seq', ['function', x[1], x[2]], ''], ['seq', it2, '']))
                 if d:
                     return pre + 'item/function(typed)/signature-vs-test/%s/differs-at:%s' % (
-                        direction(d1), ','.join(d[:3]))
+                        direction(d1), d[0])
         if it2[0] == 'function' and it2[1] is not None and x[0] in ('m', 'r'):
             # maps and arrays are functions: which code judges them against a typed function test depends on
             # the value (map entries / array members that are single items / members that are sequences or arrays)
